@@ -178,6 +178,9 @@ func (c *FnCtx) havocAll(st *State) {
 	st.epoch = c.smt.nextID
 	st.heaps = map[string]string{}
 	st.nonNil = map[string]bool{}
+	for _, fc := range c.frozenCells {
+		c.smt.assume(eq(sel(c.heapGet(st, fc.heap, fc.sort), fc.ref), fc.val), "a variable assigned once keeps its value")
+	}
 }
 
 // havocHeap replaces one heap component by a fresh symbol.
